@@ -152,4 +152,32 @@ CLAIMED = {
         note="Trusted: per-package translation results are inputs of the model; source selection is tool-chain behaviour "
              "(partial, oracle = go list); run as root, so an unwritable path is a directory in the file's place.",
         tech="Lean 4 proof (decision logic) + regenerated facts + correspondence against the real binary with metamorphic oracles"),
+    "C06": dict(
+        text="Machine-checked proofs (Lean 4 kernel): the per-package workers are confluent - for every schedule in which "
+             "each worker runs, slot j holds translatePackage(pkg j), independent of the other packages and of the order; "
+             "Require lines are independent of import order and repetition. Regenerated facts (rfl) pin that the "
+             "translator packages range over no map except getFfi's one-element set, write no package-level variable, "
+             "and spawn only the per-package worker with the body that writes its own slots. Correspondence: the REAL "
+             "binary on a generated multi-package module: each package alone vs. ./..., subsets, shuffled patterns under "
+             "GOMAXPROCS 1/2/3/16 with repetitions (byte-identical files, each package exactly its own errors), plus a "
+             "-race build.",
+        ref="DESIGN.md §6 C06",
+        note="Partial for 'free of data races': the Go memory model is not modelled; the model shows disjoint writes and no "
+             "shared globals, the race detector runs are supporting evidence. go/packages' loading is outside the translator.",
+        tech="Lean 4 proof (worker confluence, permutation invariance) + regenerated facts + repeated/regrouped runs of the real binary incl. -race"),
+    "C07": dict(
+        text="Machine-checked proofs (Lean 4 kernel) of the error-aggregation logic (the errors of a package are exactly the "
+             "errors of its failing declarations, in order, none dropped or merged; appending declarations leaves the others' "
+             "errors in place) and a regenerated inventory (rfl) of every place in the translator packages that can raise a "
+             "raw Go panic (explicit panic, unchecked type assertion, constant index into AST child lists), so that a new "
+             "site breaks an obligation. That no panic escapes a declaration is established by the repair d90bde0 in /repo "
+             "(found by this check: 19 sites reached by type-correct input) and exercised on the standard library, on "
+             "probe declarations aimed at every inventory site and catalogue construct under three flag sets, and on "
+             "packages mixing failing and good declarations (one located error per failing declaration, documented "
+             "category, position inside the declaration, good declarations still emitted).",
+        ref="DESIGN.md §6 C07, Appendix G",
+        note="Totality of the translator is not proved in Lean (no full translator model yet): the claim for 'never crashes' "
+             "rests on the recover-and-report mechanism in the code (pinned) plus corpus runs; the standard library stands "
+             "in for arbitrary type-correct Go.",
+        tech="Lean 4 proof (aggregation) + regenerated panic-site inventory + corpus correspondence on the real binary"),
 }
